@@ -10,6 +10,7 @@ import (
 
 	"verif.local/sim/kernel"
 	_ "verif.local/sim/props/c02"
+	_ "verif.local/sim/props/c06"
 	_ "verif.local/sim/props/c10"
 	_ "verif.local/sim/props/c11"
 	_ "verif.local/sim/props/c12"
